@@ -5,9 +5,10 @@ from .e1 import mk_tree
 from .engine import Prop
 
 B = BLOCK
-NAMES = ["plain", "with space", "a&b=c", "100%+x#y", "ünï-ço∂é", "q?x;y", "名前"]
+# (the last name and the last URL are not NFC-stable: decomposed accent, OHM / ANGSTROM signs)
+NAMES = ["plain", "with space", "a&b=c", "100%+x#y", "ünï-ço∂é", "q?x;y", "名前", "e\u0301tude \u2126 \u212b"]
 URLS = ["http://t.example/announce", "http://t.example/a b?x=1&y=2", "udp://t.example:6969/%41+plus#frag",
-        "http://ü.example/é", "https://w.example/dir/"]
+        "http://ü.example/é", "https://w.example/dir/", "http://t.example/e\u0301/\u2126?k=\u212b"]
 
 
 class C11(Prop):
@@ -58,11 +59,11 @@ class C11(Prop):
                         if n % 2 == 0:
                             out.append({"src": "edited", "version": v, "P": B, "tree": tree, "request": req,
                                         "route": route, "opts": opts,
-                                        "edit": {"announce": [URLS[n % 5], URLS[(n + 1) % 5]], "url-list": [URLS[(n + 3) % 5]],
+                                        "edit": {"announce": [URLS[n % 6], URLS[(n + 1) % 6]], "url-list": [URLS[(n + 3) % 6]],
                                                  "comment": "c"}, "clauses": cl})
                         # reference encoder: arbitrary key sets and forms
                         forms = [
-                            {"extra_top": {"announce": URLS[n % 5]}},
+                            {"extra_top": {"announce": URLS[n % 6]}},
                             {"extra_top": {"announce-list": [[URLS[1], URLS[0]], [URLS[2]]]}},
                             {"extra_top": {"announce": URLS[3], "announce-list": [[URLS[0]], [URLS[3], URLS[1]]]}},
                             {"extra_top": {"url-list": URLS[4]}},                       # bare string (BEP 19)
